@@ -788,7 +788,12 @@ time_t __wrap_time(time_t* t) {
 // Once a sanitizer starts reporting, the reporting thread must reach the real OS (it forks the
 // symbolizer and talks to it over real pipes): take it out of the simulation.
 extern "C" {
-void __asan_on_error() { sim::detach_current_thread(); }
-void __ubsan_on_report() { sim::detach_current_thread(); }
-void __tsan_on_report(void*) { sim::detach_current_thread(); }
+void vsim_unsilence() __attribute__((weak));
+static void leaveSimulationForReport() {
+  sim::detach_current_thread();
+  if (vsim_unsilence) vsim_unsilence();
+}
+void __asan_on_error() { leaveSimulationForReport(); }
+void __ubsan_on_report() { leaveSimulationForReport(); }
+void __tsan_on_report(void*) { leaveSimulationForReport(); }
 }
